@@ -35,13 +35,16 @@ pub struct Live {
     pub _tmp: tempfile::TempDir,
 }
 
-pub async fn start_server(access: Option<AccessControlConfig>) -> anyhow::Result<Live> {
+pub async fn start_server(access: Option<AccessControlConfig>) -> anyhow::Result<Live> { start_server_backend(access, false).await }
+
+/// a live server on loopback over the file-system or the database (sqlite) storage backend
+pub async fn start_server_backend(access: Option<AccessControlConfig>, database: bool) -> anyhow::Result<Live> {
     let base = std::path::Path::new("/verif/run/tmp");
     std::fs::create_dir_all(base)?;
     let tmp = tempfile::Builder::new().prefix("srv").tempdir_in(base)?;
     let cfg_path = tmp.path().join("config.toml");
     std::fs::create_dir_all(tmp.path().join("data"))?;
-    std::fs::write(&cfg_path, "[storage]\npath = \"data\"\n")?;
+    std::fs::write(&cfg_path, if database { "[storage]\npath = \"data\"\ndatabase = \"data/server.db\"\n" } else { "[storage]\npath = \"data\"\n" })?;
     let mut config = ServerConfig::load(&cfg_path).await?;
     config.access = access;
     config.set_bind_address("127.0.0.1:0".parse()?);
